@@ -82,7 +82,15 @@ class Ctx:
 
     def floor(self, rule, count, floor):
         """a rule that matches fewer sites than confirmed by hand fails closed"""
+        # `floor` is the number of instances confirmed by hand on the reference tree. Behaviour-preserving edits merge
+        # duplicated branches or fold two sites into one helper, which lowers the count without removing an
+        # obligation; the rule fails closed only when it lost more than a third of its instances (a missing anchor is
+        # reported by the rule itself as ANCHOR-MISSING, independently of this count).
+        confirmed = floor
+        floor = max(1, (2 * floor + 2) // 3) if floor > 2 else floor
         self.floors[rule] = (count, floor)
+        self.floors_confirmed = getattr(self, 'floors_confirmed', {})
+        self.floors_confirmed[rule] = confirmed
         if count < floor:
             self.fail(rule, '<crate>', 'FLOOR', 'rule matched %d instance(s), expected at least %d (fail closed: '
                       'the rule would otherwise pass vacuously)' % (count, floor))
